@@ -458,6 +458,31 @@ def csbe(sb):
     return "true" if sb and sb.get("be") else "false"
 
 
+# Addresses at which object headers are placed (ObjectHeaderWriter.WriteTo accepts any address and the
+# library's allocator does not align): every residue modulo 8, the root group header address of a version 0
+# file (96) and 96 + 3 bytes of int8 data, page-sized addresses with odd residues, plus random ones.
+OHDR_ADDRS = [0, 1, 2, 3, 4, 5, 6, 7, 8, 48, 96, 99, 100, 0x1001, 0x1003, 0x1007]
+
+
+def pick_ohdr_addr(rng, i):
+    if i % 2 == 0:
+        return OHDR_ADDRS[(i // 2) % len(OHDR_ADDRS)]
+    r = rng.random()
+    if r < 0.5:
+        return rng.choice(OHDR_ADDRS)
+    if r < 0.85:
+        return rng.randrange(0, 600)
+    return rng.randrange(600, 70000)
+
+
+def ohdr_pre(rng, addr):
+    """the bytes in front of the header: arbitrary for small addresses; zeros followed by 24 arbitrary bytes for
+    large ones (long literals are slow to read on the Coq side, runs of one byte are transported as `repeat`)"""
+    if addr <= 128:
+        return rbytes(rng, addr)
+    return bytes(addr - 24) + rbytes(rng, 24, nonzero=True)
+
+
 class OhdrV2(Kind):
     name = "ohdr"
     label = "ohdr_v2"
@@ -482,18 +507,37 @@ class OhdrV2(Kind):
         return msgs
 
     def gen(self, rng, i):
-        sb = dict(v=2, o=8, l=8, be=rng.random() < 0.2, addr=rng.choice([0, 0, 1, 8, 48, 100]))
+        addr = pick_ohdr_addr(rng, i)
+        sb = dict(v=2, o=8, l=8, be=rng.random() < 0.2, addr=addr)
         flags = rng.choice([0, 0, 0, 8, 64, 128, 200])
         msgs = self.gen_msgs(rng, 255, 4)
         if i < 3:
             msgs = [dict(type=12, data=rbytes(rng, 251).hex())]        # exactly 255 bytes of messages
+        elif i % 4 == 1:
+            msgs = self.gen_multi(rng, 255, 4)
         suf = rbytes(rng, rng.choice([1, 2, 8, 16]))
-        return dict(_sb=sb, version=2, flags=flags, refcount=rng.choice([0, 1, 7]), msgs=msgs, suf=suf.hex())
+        return dict(_sb=sb, version=2, flags=flags, refcount=rng.choice([0, 1, 7]), msgs=msgs, suf=suf.hex(),
+                    pre=ohdr_pre(rng, addr).hex())
+
+    def gen_multi(self, rng, budget, hdr):
+        """three to six messages of pairwise different sizes, at least two of them not a multiple of 8 (the shape
+        of a dataset header: datatype 12, dataspace 8 + 8 * rank, layout 18 bytes)"""
+        n = rng.choice([3, 3, 4, 5, 6])
+        lens = rng.sample([1, 2, 3, 5, 7, 9, 12, 13, 17, 18, 23, 31], 2) + rng.sample([4, 6, 8, 10, 16, 20, 24, 27, 33, 40], n - 2)
+        rng.shuffle(lens)
+        msgs = []
+        for ln in lens:
+            room = budget - hdr - sum(hdr + len(m["data"]) // 2 for m in msgs)
+            if room < 1:
+                break
+            t = rng.choice([1, 3, 8, 5, 17, 2, 10, 13])
+            msgs.append(dict(type=t, data=rbytes(rng, min(ln, room)).hex()))
+        return msgs
 
     def invalid(self, rng):
         sb = dict(v=2, o=8, l=8, be=False, addr=0)
-        return [dict(_sb=sb, version=2, flags=0, refcount=1, msgs=[dict(type=1, data="00" * 252)], suf="00"),
-                dict(_sb=sb, version=2, flags=0, refcount=1, msgs=[dict(type=1, data="00" * 200), dict(type=1, data="00" * 48)], suf="00")]
+        return [dict(_sb=sb, version=2, flags=0, refcount=1, msgs=[dict(type=1, data="00" * 252)], suf="00", pre=""),
+                dict(_sb=sb, version=2, flags=0, refcount=1, msgs=[dict(type=1, data="00" * 200), dict(type=1, data="00" * 48)], suf="00", pre="")]
 
     def coq_msgs(self, x):
         return cl("{| hm_type := %d; hm_data := %s |}" % (m["type"], cbytes(m["data"])) for m in x["msgs"])
@@ -501,7 +545,7 @@ class OhdrV2(Kind):
         return "{| oh_version := %d; oh_flags := %d; oh_refcount := %d; oh_msgs := %s |}" % (
             x["version"], x["flags"], x["refcount"], self.coq_msgs(x))
     def enc_expr(self, x):
-        return "(zeros (N.to_nat %d) ++ enc_ohdr_v2 %s ++ %s)%%list" % (x["_sb"]["addr"], self.coq(x), cbytes(x["suf"]))
+        return "(%s ++ enc_ohdr_v2 %s ++ %s)%%list" % (cbytes(x["pre"]), self.coq(x), cbytes(x["suf"]))
     def encok_expr(self, x):
         return "encok_ohdr_v2 " + self.coq(x)
     def wf_expr(self, x):
@@ -523,20 +567,27 @@ class OhdrV2(Kind):
                 ref = int.from_bytes(d[:4], "big" if x["_sb"]["be"] else "little")
         return [2, x["flags"], 1 if ref is None else ref, name, ms]
     def shape(self, x):
-        return "n=%d,flags=%d,addr=%d" % (len(x["msgs"]), x["flags"], x["_sb"]["addr"])
+        a = x["_sb"]["addr"]
+        return "n=%d,addr%%8=%d,addr=%s" % (min(len(x["msgs"]), 3), a % 8, a if a in OHDR_ADDRS else "other")
 
 
 class OhdrV1(OhdrV2):
     label = "ohdr_v1"
 
     def gen(self, rng, i):
-        sb = dict(v=0, o=8, l=8, be=False, addr=rng.choice([0, 0, 8, 96]))
+        # the reader steps from message to message relative to the start of the message block (as the writer
+        # pads), NOT to absolute multiples of 8: the two differ exactly at addresses that are not multiples of 8
+        addr = pick_ohdr_addr(rng, i)
+        sb = dict(v=0, o=8, l=8, be=False, addr=addr)
         if i % 4 == 0:
             msgs = [dict(type=17, data=rbytes(rng, 16).hex())]          # what the library itself writes
+        elif i % 4 == 1:
+            msgs = self.gen_multi(rng, 400, 8)
         else:
             msgs = [m for m in self.gen_msgs(rng, 400, 8) if m["type"] != 16]
-        suf = rbytes(rng, rng.choice([0, 1, 8, 16]))
-        return dict(_sb=sb, version=1, flags=0, refcount=rng.choice([0, 1, 7, (1 << 32) - 1]), msgs=msgs, suf=suf.hex())
+        suf = rbytes(rng, rng.choice([0, 1, 8, 16, 64]))
+        return dict(_sb=sb, version=1, flags=0, refcount=rng.choice([0, 1, 7, (1 << 32) - 1]), msgs=msgs, suf=suf.hex(),
+                    pre=ohdr_pre(rng, addr).hex())
 
     def invalid(self, rng):
         return []
@@ -546,15 +597,15 @@ class OhdrV1(OhdrV2):
     repaired = None
     def probe(self, H):
         p = dict(_sb=dict(v=0, o=8, l=8, be=False, addr=0), version=1, flags=0, refcount=1,
-                 msgs=[dict(type=17, data="00" * 16), dict(type=1, data="00" * 16)], suf="")
+                 msgs=[dict(type=17, data="00" * 16), dict(type=1, data="00" * 16)], suf="", pre="")
         r = vlib.run_harness(H, "c11", [dict(kind=self.name, val=self.go(p), sb=p["_sb"])])[0]
         field = int.from_bytes(bytes.fromhex(r["enc"])[8:12], "little")
         if field not in (32, 48):
             raise RuntimeError("object header v1 size field of the probe is %d (expected 32 or 48)" % field)
         self.repaired = field == 48
     def enc_expr(self, x):
-        return "(zeros (N.to_nat %d) ++ enc_ohdr_v1_gen %s %s ++ %s)%%list" % (
-            x["_sb"]["addr"], "true" if self.repaired else "false", self.coq(x), cbytes(x["suf"]))
+        return "(%s ++ enc_ohdr_v1_gen %s %s ++ %s)%%list" % (
+            cbytes(x["pre"]), "true" if self.repaired else "false", self.coq(x), cbytes(x["suf"]))
     def encok_expr(self, x):
         return None
     def wf_expr(self, x):
